@@ -73,7 +73,8 @@ func (s *DefaultMetricSearcher) searchOffsetAndRead(beginTimeMs uint64, doRead f
 		logging.Warn("[searchOffsetAndRead] Failed to getOffsetStartAndFileIdx", "beginTimeMs", beginTimeMs, "err", err.Error())
 	}
 	fileAmount := uint32(len(filenames))
-	for i := fileNo; i < fileAmount; i++ {
+	// The cached idx offset (offsetStart) only applies to the cached file; later files are scanned from their start.
+	for i := fileNo; i < fileAmount; i, offsetStart = i+1, 0 {
 		filename := filenames[i]
 		// Retrieve the start offset that is valid for given condition.
 		// If offset = -1, it indicates that current file (i) does not satisfy the condition.
@@ -98,7 +99,7 @@ func (s *DefaultMetricSearcher) getOffsetStartAndFileIdx(filenames []string, beg
 	}
 	if cacheOk {
 		for j, v := range filenames {
-			if v != s.cachedPos.metricFilename {
+			if v == s.cachedPos.metricFilename {
 				i = uint32(j)
 				offsetInIdx = s.cachedPos.curOffsetInIdx
 				break
